@@ -263,6 +263,8 @@ def check(case):
             res.label("layout:files-as-arguments")
         if prog.get("hook_faults"):
             res.label("hook-fault")
+        if prog.get("hook_faults_named"):
+            res.label("tag-hook-raises-for-a-container-tag")
         if any(c.get("raises") for c in prog.get("cleanups", [])) or ref.cleanup_error_elems:
             res.label("raising-cleanup")
             if prog.get("cleanup_msg") and not valid_xml_text(prog["cleanup_msg"]):
@@ -304,6 +306,14 @@ def case_st(draw):
                                 s["emit"]["stderr"] = draw(emitted_text())
                             if o != "pass":
                                 s["emit"]["msg"] = draw(emitted_text())
+    if not prog.get("hook_faults") and not prog.get("cleanups") and draw(st.integers(0, 5)) == 0:
+        # a TAG hook that raises for one tag wherever it is written (feature, rule, scenario level): the error belongs to
+        # the element that carries the tag, not to the scenario that happened to run last
+        ctags = sorted(set(t for f in prog["features"] for t in f["tags"]) |
+                       set(t for f in prog["features"] for it in f["items"] if it["k"] == "r" for t in it["tags"]))
+        if ctags:
+            prog["hook_faults_named"] = [[draw(st.sampled_from(["after_tag", "after_tag", "before_tag"])),
+                                          draw(st.sampled_from(ctags)), "Exception"]]
     from ..harness import _all_step_lists
     if hostile and (prog.get("cleanups") or any(st_.get("cl") == "raise" for f in prog["features"]
                                                   for lst in _all_step_lists(f) for st_ in lst)):
@@ -343,7 +353,7 @@ def explore(rec):
 
 
 def required_labels(tier):
-    return ["hostile", "hostile:output>1KiB", "hostile-scenario-name", "failing-scenario", "no-skipped", "hook-fault", "raising-cleanup", "raising-cleanup:hostile-message",
+    return ["hostile", "hostile:output>1KiB", "hostile-scenario-name", "failing-scenario", "no-skipped", "hook-fault", "tag-hook-raises-for-a-container-tag", "raising-cleanup", "raising-cleanup:hostile-message",
             "userdata:show_skipped_always", "userdata:show_scenarios", "reports:2", "layout:sub-directory",
             "layout:equally-named-files", "layout:files-as-arguments", "cli:LC_ALL=C", "cli:non-ascii-names"]
 
